@@ -367,6 +367,13 @@ int main(int argc, char** argv) {
   };
 
   std::vector<std::string> n7x, n7y;  // filled below (N7)
+  // N8: N4 strings re-spelled with 10^4 .. 10^6 padding zeros, so that the written exponent has 5..7 digits and is
+  // compensated by the length of the mantissa (exponent accumulators that saturate too early, digit counters)
+  std::vector<unsigned> n8z = {9980, 9999, 10000, 10001, 99980, 99999, 100000, 100001, 100020, 300000, 1000000};
+  if (quick) n8z = {9999, 10001, 99999, 100000, 100001, 250000};
+  std::vector<unsigned> n8be = {1, 1023, 1075, 2046};
+  std::vector<unsigned> n8pi = {0, 1, 3};
+  if (quick) n8be = {1, 1023, 2046}, n8pi = {0, 1};
   vr::CheckFn check = [&](const vr::Family& f, uint64_t idx, vr::Ctx& ctx) {
     const std::string& nm = f.name;
     if (nm == "N1_integers") {
@@ -483,6 +490,34 @@ int main(int argc, char** argv) {
       check_number(Y, ctx);
       return;
     }
+    if (nm[1] == '8') {
+      unsigned form = (unsigned)(idx % 3);
+      idx /= 3;
+      unsigned z = n8z[idx % n8z.size()];
+      idx /= n8z.size();
+      unsigned var = (unsigned)(idx % 3);
+      idx /= 3;
+      unsigned pi = n8pi[idx % n8pi.size()];
+      unsigned be = n8be[idx / n8pi.size()];
+      Dec d;
+      uint64_t eb;
+      bool einf;
+      n4case(be, pi, var, d, eb, einf);
+      std::string s;
+      long L = (long)d.G.size();
+      if (form == 0)
+        s = respell(d, z, (size_t)L + z);  // integer mantissa with z trailing zeros, exponent about -z
+      else if (form == 1)
+        s = respell(d, z, 1);  // point after the first digit, z trailing fraction zeros
+      else
+        s = "0." + std::string(z, '0') + d.G + "e" + std::to_string((L - d.k) + (long)z);  // z leading fraction zeros, exponent about +z
+      if (ctx.want_sample)
+        ctx.sample("exp=" + std::to_string(be) + " pattern=" + std::to_string(pi) + " variant=" + std::to_string(var) + " form=" + std::to_string(form) + " zeros=" + std::to_string(z) + " : " + s.substr(0, 24) + "..." + s.substr(s.size() - 24) + " (" +
+                   std::to_string(s.size()) + " bytes)");
+      ctx.nontriv();
+      check_number(s, ctx, true, eb, einf);
+      return;
+    }
     if (nm[1] == '5') {
       if (ctx.want_sample) ctx.sample(n5[idx].substr(0, 100));
       ctx.nontriv();
@@ -566,13 +601,19 @@ int main(int argc, char** argv) {
   f7.chunk = 16;
   f7.rule = "ordered pairs (X,Y): X (14 spellings that drive the slow paths into unusual states: >800 digits with non-zero tail, overflow, underflow, malformed) is parsed first, then Y (" + std::to_string(n7y.size()) +
             " rounding-sensitive spellings: exact ties of both parities and their neighbours, classics) is checked as usual: the result for Y must not depend on the history";
-  fams = {f1, f2, f2b, f3, f3b, f4, f5, f6, f7};
+  vr::Family f8;
+  f8.name = "N8_huge_zero_runs";
+  f8.count = (uint64_t)n8be.size() * n8pi.size() * 3 * n8z.size() * 3;
+  f8.group = "N8";
+  f8.chunk = 4;
+  f8.rule = "N4 strings (exact tie / below / above) of " + std::to_string(n8be.size()) + " exponents x " + std::to_string(n8pi.size()) + " patterns re-spelled with z zeros for z in {9999..10001, 99999..100001, ... 10^6}: (0) integer mantissa with z trailing zeros and exponent about -z, (1) z trailing fraction zeros, (2) z leading fraction zeros and exponent about +z; expected bits known exactly";
+  fams = {f1, f2, f2b, f3, f3b, f4, f5, f6, f7, f8};
   if (asan) {
     // the ASan pass re-runs the structurally interesting families only
-    fams = {f1, f2b, f4, f5, f6, f7};
+    fams = {f1, f2b, f4, f5, f6, f7, f8};
   }
   if (args.replay) {
-    std::vector<vr::Family> all = {f1, f2, f2b, f3, f3b, f4, f5, f6, f7};
+    std::vector<vr::Family> all = {f1, f2, f2b, f3, f3b, f4, f5, f6, f7, f8};
     return R.replay_one(all, check);
   }
   const std::string only = args.get("only");
